@@ -314,3 +314,5 @@ w("C03", "optional result of validate_column stored unguarded again", BP + "comp
   "                if schema.parsers:\n                    check_obj[column_name] = validated_column\n")
 w("C15", "rename_columns forgets the unique list again", "pandera/api/dataframe/container.py",
   "        if new_schema.unique is not None:\n            new_schema.unique = [\n                (\n                    [rename_dict.get(col, col) for col in item]\n                    if isinstance(item, list)\n                    else rename_dict.get(item, item)\n                )\n                for item in new_schema.unique\n            ]\n", "")
+w("C13", "SeriesSchema strategy ignores the index again", "pandera/api/pandas/array.py",
+  "        if index is not None:\n            strategy = st.set_pandas_index(strategy, index)\n        return strategy\n", "        return strategy\n")
